@@ -69,9 +69,9 @@ func init() {
 		Rule: "fault enumeration: every (junk kind, placement) cell - 5 irrelevant kinds and 5 schema-conversion failures x {own file, first/middle/last document of a valid file}, 6 unreadable/malformed file kinds (two syntax errors, HTML, binary, dangling symlink, symlink loop), 5 harmless files (empty .yaml, .txt, .md, .png, non-manifest .json), a fatal duplicate-NetworkPolicy conflict - is applied to sampled valid worlds (case index mod number of cells picks the cell); " +
 			"oracles over paired real runs: list(valid+junk) = list(valid) point-wise, severe(with) - severe(without) >= injected bad items, stop-on-error + severe => empty result or error on ConnlistFromDirPath, ConnlistFromResourceInfos and diff, fatal => error and no result for list and diff, diff(valid+junk, valid) has no added/removed/changed entry; " +
 			"non-trivial = the valid twin's report is non-empty and the cell injects a bad or fatal item; distinct = world hash + cell",
-		Assumptions: []string{"a syntax error ends the decoding of its own file, so broken content is injected as whole files only", "an empty file and files without manifest extension are neither errors nor inputs"},
-		NumCases:    func(tier string, _ int64) int { return tierN(tier, len(c13Cells())*12, len(c13Cells())*400) },
-		Run:         runC13,
+		Assumptions:       []string{"a syntax error ends the decoding of its own file, so broken content is injected as whole files only", "an empty file and files without manifest extension are neither errors nor inputs"},
+		NumCases:          func(tier string, _ int64) int { return tierN(tier, len(c13Cells())*12, len(c13Cells())*400) },
+		Run:               runC13,
 		MinNonTrivial:     100,
 		MinEffectiveShare: 0.5,
 		RequiredEvents:    map[string]int64{"cells_run": 500, "relation_points_compared": 20000, "severe_entries_attributed": 100, "stop_on_error_runs_with_nonempty_twin": 50, "stop_on_error_diff_runs_with_nonempty_twin": 100, "fatal_cells": 10, "bad_items_injected": 200},
